@@ -74,7 +74,7 @@ func newNodeEnv(E uint64, nVal int, localIdx int, votePend uint64) *nodeEnv {
 	for _, k := range env.keys {
 		xpubs = append(xpubs, k.XPub())
 	}
-	consensus.ActiveNetParams = consensus.Params{
+	params := consensus.Params{
 		Name:            "test", // "solo" would overwrite the federation with the local key
 		Bech32HRPSegwit: "tn",
 		CasperConfig: consensus.CasperConfig{
@@ -85,6 +85,12 @@ func newNodeEnv(E uint64, nVal int, localIdx int, votePend uint64) *nodeEnv {
 			VotePendingBlockNums: []consensus.VotePendingBlockNum{{BeginBlock: 0, EndBlock: ^uint64(0), Num: votePend}},
 			FederationXpubs:      xpubs,
 		},
+	}
+	// the daemons of earlier nodes (blockProcessor, authVerificationLoop) never terminate and
+	// read the global parameters: write them only when they change (the concurrency mode keeps
+	// them constant, so a -race run sees no harness-made write)
+	if fmt.Sprint(consensus.ActiveNetParams) != fmt.Sprint(params) {
+		consensus.ActiveNetParams = params
 	}
 	config.CommonConfig = config.DefaultConfig()
 	env.useLocalKey()
